@@ -147,6 +147,42 @@ static void pred_enum(const Case &c) {
   tag(count < 100 ? "interleavings<100" : count < 1000 ? "interleavings<1e3" : count < 10000 ? "interleavings<1e4" : "interleavings>=1e4");
   VF_CHECK(foreign > 0, "harness: no enumerated interleaving had a foreign srand_ inside a worker's seed..draw window (%ld schedules)", count);
 }
+
+// ---- yscramble_sched: YScrambling (bootstrap variant: its inner validation always uses 4 workers x 100 iterations) under a generated
+// schedule must equal the run under the canonical schedule (lowest runnable thread first): the shuffle stream of the calling thread
+// must not be perturbed by the workers it spawns, whatever their interleaving
+static M scheduled_yscramble(const Data &D, int scr_iters, const std::vector<int> &choices, bool fine, bool &foreign) {
+  matrix *mx = to_lib(D.X), *my = to_lib(D.Y), *cc; initMatrix(&cc);
+  MODELINPUT in = initModelInput(); in.mx = mx; in.my = my; in.nlv = 1; in.xautoscaling = 1; in.yautoscaling = 0;
+  ValidationArg va = initValidationArg(); va.vtype = BootstrapRGCV; va.rgcv_group = 3; va.rgcv_iterations = 4;
+  libsci_verif_rng_hook = sched::rng_hook;
+  sched::S().start(choices, fine);
+  YScrambling(&in, _PLS_, va, (size_t)scr_iters, cc, 4, NULL);
+  sched::S().stop(); libsci_verif_rng_hook = nullptr;
+  foreign = foreign_seed_inside(sched::S().trace);
+  M R = from_lib(cc); DelMatrix(&mx); DelMatrix(&my); DelMatrix(&cc);
+  return R;
+}
+static void gen_ysched(Draw &d, Case &c) {
+  Data D = small_data(d, L_PLS, 8, 11); D.ny = std::min(D.ny, 1); if (D.Y.c > 1) { M Y1(D.n, 1); for (int i = 0; i < D.n; i++) Y1(i, 0) = D.Y(i, 0); D.Y = Y1; }
+  int scr = (int)d.i(1, 2), fine = d.coin(40) ? 1 : 0, len = (int)d.i(50, 400);
+  put_data(c, D); c.p.insert(c.p.end(), {scr, fine, len});
+  auto ch = d.ivec((size_t)len, 0, 7); for (auto x : ch) c.p.push_back(x);
+  c.tags.push_back(fmt("scramble-iterations=%d", scr)); if (fine) c.tags.push_back("yield-also-inside-generator-calls");
+}
+static void pred_ysched(const Case &c) {
+  Reader rd(c); Data D = read_data(rd); int scr = (int)rd.i(), fine = (int)rd.i(), len = (int)rd.i();
+  std::vector<int> ch((size_t)len); for (auto &x : ch) x = (int)rd.i();
+  bool f0 = false, f1 = false;
+  M canon = scheduled_yscramble(D, scr, {}, false, f0);
+  M got = scheduled_yscramble(D, scr, ch, fine != 0, f1);
+  if (f1) { nontrivial(); tag("foreign-srand-between-seed-and-last-draw"); }
+  VF_CHECK(canon.r == got.r && canon.c == got.c && canon.r == scr + 1, "YScrambling result shape %dx%d vs %dx%d", got.r, got.c, canon.r, canon.c);
+  for (size_t q = 0; q < canon.a.size(); q++) {
+    bool same = (std::isnan((double)canon.a[q]) && std::isnan((double)got.a[q])) || fabsl(canon.a[q] - got.a[q]) <= 1e-11L * (fabsl(canon.a[q]) + 1);
+    VF_CHECK(same, "YScrambling (bootstrap validation, 4 workers) under a generated schedule: element %zu = %.15Lg, under the canonical schedule %.15Lg", q, got.a[q], canon.a[q]);
+  }
+}
 #endif
 
 // ---- freerun: free-running threads, repeated runs bit-identical; replayed under ThreadSanitizer ------------
@@ -211,7 +247,8 @@ Property &vf::property() {
       "schedules: BootstrapRandomGroupsCV (PLS, MLR, LDA; 5..12 objects; 2..4 workers; iterations a multiple of the workers) with the library's "
       "threads serialised by a scheduler (pthread_create/join wrapped, yield points = hook H2 at every srand_/rand_/randInt/randDouble), the "
       "interleaving being part of the generated case, a harness noise thread calling srand_/randInt/rand_ in 35 % of the cases; enumerate: "
-      "every interleaving for 2 workers x 3/4 objects (3 workers x 3 objects capped at 6000) by depth-first re-execution; freerun: bootstrap, "
+      "every interleaving for 2 workers x 3/4 objects (larger configurations capped, stated by a tag) by depth-first re-execution; yscramble_sched: "
+      "YScrambling with its bootstrap validation (4 workers) under a generated schedule vs the canonical schedule; freerun: bootstrap, "
       "YScrambling (LOO and bootstrap variants), KMeans with seeded random initialisers, KFoldCV+LeaveOneOut with free-running threads, three "
       "repetitions bit-identical, the same cases replayed under ThreadSanitizer. Oracle: the sequential run (same seed -> same fold matrix "
       "via hook H4, predictions equal to 1e-11). Non-trivial: a foreign srand_ falls between a worker's srand_ and its last draw.",
@@ -219,6 +256,7 @@ Property &vf::property() {
 #ifndef VERIF_NO_SCHED
           {"schedules", gen_sched, pred_sched, 1600, 6000, 100},
           {"enumerate", gen_enum, pred_enum, 16, 48, 100, false, 900},
+          {"yscramble_sched", gen_ysched, pred_ysched, 120, 800, 100},
 #endif
           {"freerun", gen_free, pred_free, 240, 1200, 100},
       }};
